@@ -190,7 +190,8 @@ def reconnect_oracle(ix: Index, scn: dict) -> list[Violation]:
                 continue
             if not later or abs(later[0]["t_new"] - t) > EPS:
                 out.append(Violation("record-not-immediate", "", f"matching mDNS record delivered at {t:.6f} while waiting; next attempt at {later[0]['t_new'] if later else None}"))
-        if not matching and not alive and later and abs(later[0]["t_new"] - t) <= EPS and ix.seq_turn[later[0]["seq_new"]] <= ix.seq_turn[seq] + 2:
+        other_matching_now = any(abs(t2 - t) <= EPS and d2["n_listeners"] > 0 and any((r["type"] == "PTR" and r.get("alias") == f"{name}._esphomelib._tcp.local.") or (r["type"] == "A" and r.get("name") == f"{name}.local.") for r in d2["records"]) for s2, t2, d2 in records)
+        if not matching and not other_matching_now and not alive and later and abs(later[0]["t_new"] - t) <= EPS and ix.seq_turn[later[0]["seq_new"]] <= ix.seq_turn[seq] + 2:
             # a non-matching record must not trigger anything (unless a timer happened to fire right then)
             tm = _timer_due(h, attempts, later[0], t)
             if not tm:
